@@ -28,7 +28,7 @@ META = {
         rule=("Random histories (12-40 callbacks of random sizes 1..3*ibs+5, internal buffer 1..333, 4 sample rates): add top-level and nested tracks (depth <= 4) with 0-2 affine probe effects, random send routes and volumes; play/stop probe sounds on any track or the main track; "
               "pause/resume tracks, set track/main volumes (instant tweens), drop tracks (with subtree) and send tracks. Every callback: each live, un-paused probe must be asked for exactly the callback's frames in slices <= ibs with dt == 1/sr (paused/removed ones for 0 frames); "
               "every output frame must equal the documented sum (sound -> effects in order -> x track volume -> parent and send routes -> send effects x send volume -> main effects x main volume) within 2e-5 x sum|contributions|, and exactly 0 when nothing is routed. "
-              "Callbacks in which a resume or volume change takes hold contain a one-chunk ramp and are not compared sample-exactly (counted separately). A case is distinct when (tree/send shape, ibs, sample rate, history length) is new and >= 1 frame was compared. Track volumes include -60 dB and below (a silent track still runs everything beneath it); send-route volumes change with tweens of 0..3 buffers, also on paused tracks. A track's handle may be dropped alone (children kept): the track stays, and keeps sounding, until every track beneath it that the audio thread holds has lost its handle too. Ramp cases: the volume of the sub-track, its send route, the send track or the main track moved with a linear tween while callbacks of arbitrary sizes are rendered; every frame compared with previous + (current - previous)(i+1)/n in dB over each chunk's own n frames (a route applies its end-of-chunk value), 3e-5 relative."),
+              "Callbacks in which a resume or volume change takes hold contain a one-chunk ramp and are not compared sample-exactly (counted separately). A case is distinct when (tree/send shape, ibs, sample rate, history length) is new and >= 1 frame was compared. Track volumes include -60 dB and below (a silent track still runs everything beneath it); send-route volumes change with tweens of 0..3 buffers, also on paused tracks. A track's handle may be dropped alone (children kept): the track stays, and keeps sounding, until every track beneath it that the audio thread holds has lost its handle too. Ramp cases: the volume of the sub-track, its send route, the send track or the main track moved with a linear tween while callbacks of arbitrary sizes are rendered; every frame compared with previous + (current - previous)(i+1)/n in dB over each chunk's own n frames (a route applies its end-of-chunk value), 3e-5 relative. The ramps use every easing curve (reference curves of C06); afterwards the same volume is linked through its handle, with a tween, to a tweener modulator, and must follow the modulator when it moves after that tween has ended."),
         domain="volumes -18..+3 dB, affine effects gain {1,0.5,-0.75,1.25,0.9} offset 0 or +-0.003, up to 3 sends; one pause-or-resume per track per callback interval (cross-kind ordering within an interval is C07's subject)",
         assumptions=["removal timing follows the rule stated in C08: next callback if already picked up, the one after otherwise", "built-in non-linear effects are covered by C13/C14"],
         quick=[rel(25)],
@@ -44,7 +44,7 @@ META = {
               "{resume_at(delayed 0), resume_at(clock that no longer exists), seek_to, seek_by, set_volume, set_playback_rate} x issue gap {0,1,3 callbacks}, every 5th on a finite sound. Random part: up to 40 commands with random fades/delays, fade-in, delayed start, finite sounds, streaming sounds. "
               "Monitor rules per callback: the reported state must be in the set the documented life cycle allows (fade-driven steps complete when their tween completes +-1 callback; clock-scheduled resumes leave WaitingToResume exactly in the buffer in which the observed clock reaches the time; a missing clock cancels to Stopped; Stopped absorbs); "
               "exact silence and frozen position across callbacks spent entirely in Paused/WaitingToResume/Stopped; exactly unity gain when steadily Playing, monotone gain inside fades, gain within [0, unity]; Stopped sounds unloaded at the next callback (num_sounds) and the slot reusable; finite sounds reach Stopped within a frame bound. "
-              "A case is distinct and non-trivial when its observed state trace is new and contains a transition. Additional cases: a streaming sound whose decoder delivers nothing still completes pause/resume/stop fades and is unloaded; after several playback-state commands in one interval the state only moves by fades completing; a clock start time (own or resume_at) on a clock that is not running (never started, paused past the time, stopped) keeps the sound silent / WaitingToResume until the clock is started; a sound on a paused sub-track (or on a child of one) still acknowledges pause/resume/stop at the next callback and a Stopped one is still unloaded, with callbacks of 1-3 buffers. A third of the cases run on a device whose internal buffer is three callbacks long (every callback a short chunk): fades, delays, positions and the clock are still counted in the frames actually rendered."),
+              "A case is distinct and non-trivial when its observed state trace is new and contains a transition. Additional cases: a streaming sound whose decoder delivers nothing still completes pause/resume/stop fades and is unloaded; after several playback-state commands in one interval the state only moves by fades completing; a clock start time (own or resume_at) on a clock that is not running (never started, paused past the time, stopped) keeps the sound silent / WaitingToResume until the clock is started; a sound on a paused sub-track (or on a child of one) still acknowledges pause/resume/stop at the next callback and a Stopped one is still unloaded, with callbacks of 1-3 buffers. A third of the cases run on a device whose internal buffer is three callbacks long (every callback a short chunk): fades, delays, positions and the clock are still counted in the frames actually rendered. Fades use every easing curve (the enumeration cycles through five, random cases draw any); a quarter of the random cases give resume() a fade-in tween whose own start is delayed: Resuming at once, Playing when the delayed fade has ended."),
         exhaustive_quick=True,
         exhaustive_thorough=True,
         domain="at most one state command per callback interval (cross-kind ordering inside one interval is C07's subject); fades 0..6 chunks, delays 0..5 chunks",
@@ -62,7 +62,7 @@ META = {
               "(2) random lengths up to 1e5 with random slices, loops (incl. loop end == length, start inside/after the loop), rates, rate pairs; (3) long sounds at rate 1 with seek_to/seek_by/set_loop_region at random callback boundaries. "
               "Oracles: bit-exact index sequence at |rate|*sound_rate*dt == 1; 4-point Hermite of the model sequence at the f64-accumulated position otherwise (8e-6 relative); any sample >= 2.5e5 is an out-of-slice read; Stopped not before the last frame was heard and reported by the callback containing sequence index last+4; "
               "after commands every consecutive heard pair obeys the loop successor rule, seeks land within one frame of the request once the 4-frame window has refilled, reported position within one frame of the heard frame. "
-              "A case is distinct and non-trivial when its expected index sequence (first 64) x rate x chunk class x rate-pair class is new and non-empty. Command cases also run on slices of longer buffers with open-ended run-time loop regions (a looping sound must not stop); slices may extend past the audio data; a reversed sound above its loop is seeked to frames at or after the loop end."),
+              "A case is distinct and non-trivial when its expected index sequence (first 64) x rate x chunk class x rate-pair class is new and non-empty. Command cases also run on slices of longer buffers with open-ended run-time loop regions (a looping sound must not stop); slices may extend past the audio data; a reversed sound above its loop is seeked to frames at or after the loop end. The slice is given in one of the equivalent ways: the field, .slice(a..b), a second .slice() replacing an earlier one, and the open-ended a.. when it ends at the end of the data."),
         exhaustive_quick=True,
         exhaustive_thorough=True,
         domain="valid slices (start<=end<=frames), loop regions with start<end<=len; degenerate regions belong to C01; excluded while listed as known finding: reverse with start position >= length",
@@ -81,7 +81,7 @@ META = {
               "(1e-9 for constant speed; for tweens the interval spanned by the speed at the chunk's boundaries, interpolated in the target's unit), paused clocks bit-identical, stopped clocks zero, ticking() correct. "
               "Monitor 2 (scheduling): a sound start, a volume tween start or a resume_at scheduled for a whole or fractional clock time; the event must begin exactly at the first frame of the internal buffer during which the clock (model: constant speed, start delay, pause window) reaches the time - never later, never while paused or short of it; a dropped clock cancels the waiting sound within 3 callbacks. "
               "Monitor 3 (handle reads): audio thread running callbacks vs a thread calling time() (and stop()), parked at the hooks between the two stores / two loads; all interleavings enumerated depth-first for (callbacks x reads) up to 2x2 (quick) / 3x3 (thorough) plus random schedules of 6x6; every read must equal a value published before or during it and reads must not go backwards while the clock runs. "
-              "A case is distinct when its history class / schedule trace is new. Also stop()+start() and pause()+start() within one interval, and a clock whose speed is mapped from a moving modulator (same-chunk value). Under Miri / TSan the depth-first enumeration is additionally bounded by the shard's time budget (what was not reached is reported as not enumerated). Monitor 2b: a clock that counted 2^53..2^62 ticks in one buffer and then moves 1/8..1/2 tick per buffer; a sound scheduled 1-3 ticks ahead begins in the buffer in which the clock (read back from the handle, compared ticks first, then fraction) reaches that tick, at most one buffer early."),
+              "A case is distinct when its history class / schedule trace is new. Also stop()+start() and pause()+start() within one interval, and a clock whose speed is mapped from a moving modulator (same-chunk value). Under Miri / TSan the depth-first enumeration is additionally bounded by the shard's time budget (what was not reached is reported as not enumerated). Monitor 2b: a clock that counted 2^53..2^62 ticks in one buffer and then moves 1/8..1/2 tick per buffer; a sound scheduled 1-3 ticks ahead begins in the buffer in which the clock (read back from the handle, compared ticks first, then fraction) reaches that tick, at most one buffer early. Monitor 2c: tweener-modulator transitions scheduled with a delay, on a running clock and on an idle clock (oracle shared with C17)."),
         domain="speeds 0.5..3000 ticks/s; excluded while listed as known findings: tweens scheduled on the clock's own time (monitor 1); torn reads are counted and reported as the known finding, any other unexplained read is a violation",
         assumptions=["interleavings are enumerated at hook granularity (between the atomic operations of ClockShared); the operations themselves are atomic", "the other-clock start of a speed tween may be observed one chunk early or late depending on clock update order (modelled as an interval)"],
         quick=[rel(30)],
@@ -114,7 +114,7 @@ META = {
               "free-running stress with random spin delays (1.6M writes quick). Checker: every delivered value has a valid checksum and was written; sequence numbers strictly increase; a read returns the newest command completely written before it began (or one written during it), None only if nothing newer was completely written; the last command is delivered after the writer stops. "
               "Monitor B: for each of the 65 command kinds in the table (static 9, streaming 9 incl. the 3 decoder-side ones, sub/spatial track, send, main, listener 2, clock 3, LFO 5, tweener 1, filter 4, EQ 4, delay 2, distortion 3, reverb 4, compressor 6, volume/panning control) with three distinguishable settings: "
               "issued once -> the observable (output level L/R, position, state, clock time) equals that of a reference scene built with / commanded to that setting; for instantaneous kinds already within the very next callback, also when written before the resource's first callback; burst of two -> only the last; one-shot seeks applied once. "
-              "Pairs of kinds / resources issued in one interval do not interfere. Distinct cases: schedule traces, command kinds. Pair cases: start/pause/stop sequences on one clock (last wins, stop resets, exact time afterwards); commands written between play() and the first callback on main/sub/nested/spatial tracks; send-route volume in the first buffer; same-target tweener sets; same-interval sound state commands; pause/resume commands, one per interval, to a sound on a paused sub-track (acknowledged at once, the last one decides after the track resumes); a streaming sound's seek_by and seek_to written in one interval in either order (exactly one jump, to the seek_to target); set_volume / pause written to a track whose handle is dropped in the same interval while the track lives on (persisting, or a kept child); a tweener transition that has not begun (delay, clock time, idle clock) called off by set(<the held value>)."),
+              "Pairs of kinds / resources issued in one interval do not interfere. Distinct cases: schedule traces, command kinds. Pair cases: start/pause/stop sequences on one clock (last wins, stop resets, exact time afterwards); commands written between play() and the first callback on main/sub/nested/spatial tracks; send-route volume in the first buffer; same-target tweener sets; same-interval sound state commands; pause/resume commands, one per interval, to a sound on a paused sub-track (acknowledged at once, the last one decides after the track resumes); a streaming sound's seek_by and seek_to written in one interval in either order (exactly one jump, to the seek_to target); set_volume / pause written to a track whose handle is dropped in the same interval while the track lives on (persisting, or a kept child); a tweener transition that has not begun (delay, clock time, idle clock) called off by set(<the held value>); effects on the main track, a sub-track and a send track are asked to take their commands exactly once per callback of 1..451 frames (internal buffer 64)."),
         domain="scheduler granularity = one CommandWriter::write / CommandReader::read; interleavings inside triple_buffer are sampled by stress/TSan/Miri, not enumerated",
         assumptions=["Monitor A exercises the same kira::command code every handle uses, with a probe payload", "decoder-side commands are observed after the 16384-frame ring of earlier-decoded audio has played out"],
         require_equal=[("B_command_kinds_covered", "B_command_kinds_in_table")],
@@ -131,7 +131,7 @@ META = {
               "after every op all num_*/capacity queries of the manager and of every live track handle must equal the shadow model (removal at the next callback, at the one after if the resource had not been picked up) and never exceed the capacity; no probe sound/effect/modulator may be destroyed while its thread is inside a callback; "
               "at teardown created == destroyed, none twice. Stale ids: after the slot of a removed clock / modulator / listener / send track is reused, what referenced the old id behaves as missing (waiting sound Stopped and silent, parameter holds its value, spatial track silent, route feeds nothing). "
               "Concurrency: game thread creating/dropping clocks vs audio thread callbacks, parked at the res.* hooks (try_reserve, insert before/after draining the unused ring, between the remove pass and the refill loop): interleavings enumerated depth-first (bounded per shard) - results must be linearizable against [alive, alive+pending] and counts within capacity; "
-              "free-running stress with an audio thread. A history is distinct and non-trivial when at least one slot was freed and reused. Histories include spatial tracks, child tracks dropped with their parent, pause/resume of tracks, and plays of sound data whose into_sound fails (no slot may be used up). Chain cases: top -> middle -> leaf (or a persisting child with an unfinished sound), handles dropped in every order at callback boundaries; num_sub_tracks() stays 1, nothing beneath is destroyed and a second top-level track is refused (capacity 1) while any track of the chain is kept; afterwards the slot is reusable and everything was destroyed off the audio thread."),
+              "free-running stress with an audio thread. A history is distinct and non-trivial when at least one slot was freed and reused. Histories include spatial tracks, child tracks dropped with their parent, pause/resume of tracks, and plays of sound data whose into_sound fails (no slot may be used up). Chain cases: top -> middle -> leaf (or a persisting child with an unfinished sound), handles dropped in every order at callback boundaries; num_sub_tracks() stays 1, nothing beneath is destroyed and a second top-level track is refused (capacity 1) while any track of the chain is kept; afterwards the slot is reusable and everything was destroyed off the audio thread. Built-in modulators (idle tweener; tweener waiting for a delayed / clock-timed transition or inside an hour-long one; LFO) with capacity 1: the slot is free one callback after the handle is dropped (two if not yet picked up)."),
         domain="capacities {0,1,2,3,128}; nested tracks and persistence rules are C12's subject",
         assumptions=["Clock and Listener are kira-internal types: their destruction thread is not observable through a probe (sounds, effects and modulators are)", "schedule enumeration is capped per shard (counts and completeness flags are in the evidence)"],
         quick=[rel(30)],
@@ -146,7 +146,7 @@ META = {
         rule=("Random pairs: noise content of length 0..24k (quick) / 40k (thorough) frames (crossing the 16384-frame ring), slices, start positions, loop regions (incl. to the end), rates {1, 0, 0.1..4}, volume/panning, fade-in, delayed start, device/sound rate pairs, "
               "decoder packet plans (1, fixed 1..4096, variable, 4096/1/333) and seek granularities {1,8,64,1000,4096}; chunk sizes 1..512; random histories of set_volume/set_panning/set_playback_rate/pause/resume/resume_at(delayed)/stop with random tweens applied to both handles (no seeks). "
               "Before every callback the harness waits until the decoder has filled its ring or ended (two fresh dec.wait hook hits). Compared after every callback: every output frame (1e-6 x scale), state(), and until Stopped position() within one frame along the transport path (cyclic in a loop). "
-              "A case is distinct and non-trivial when (packet plan class, seek granularity, loop?, slice?, rate class, longer-than-ring?) is new and >= 1 non-silent frame was compared. A third of the sounds longer than the ring run at rate 1 with callbacks of 381 or 5461 frames (divisors of 16383), so that a callback begins exactly when the 16384-slot ring wraps."),
+              "A case is distinct and non-trivial when (packet plan class, seek granularity, loop?, slice?, rate class, longer-than-ring?) is new and >= 1 non-silent frame was compared. A third of the sounds longer than the ring run at rate 1 with callbacks of 381 or 5461 frames (divisors of 16383), so that a callback begins exactly when the 16384-slot ring wraps. The streaming side receives its slice directly, or through a second .slice() replacing an earlier one (open-ended when the slice ends at the end of the data)."),
         domain="valid slices and loop regions (start<end<=len); non-negative rates; no seek commands (per the property)",
         assumptions=["a pair whose decoder does not reach ring-full/end within 5 s wall is inconclusive (counted, never a violation)", "ScriptedDecoder implements the public Decoder trait; seeks land on multiples of the granularity at or before the request"],
         quick=[rel(40)],
@@ -162,7 +162,7 @@ META = {
               "Random part: scene in {main, sub-track, rejected by a full track, paused track, track dropped, manager dropped, handle dropped, stopped with fade, natural end} x pace {ahead, slow decode (300 us), stalled (gated through dec.step permits)} x fault x loop region x stop/drop moment. "
               "Oracles: after an error state()==Stopped within 2 callbacks, unloaded, silent, pop_error() == the first injected error; decoder Drop observed (thread ended) or else >= 300 further decode-loop iterations with nothing to do = violation, neither within 4 s = inconclusive; "
               "> 2000 loop re-runs after an error = busy spin; index-coded frames strictly consecutive (mod loop), across a gap of silence resume within one frame; no decoder destroyed inside a callback; no allocation in callbacks. "
-              "A case is distinct and counted when its fault was actually reached (the decoder counted the failing call) or it is a fault-free life-cycle case with a new (scene, pace, loop) combination. Streams longer than the 16384-frame ring; errors arriving while the sound itself is paused or waits for a clock; a decoder thread that neither ends nor polls while a reference thread completes 1500 sleeps of 1 ms is a violation. stop() written after pause()/resume()/resume_at() in the same interval must still stop the sound (Stopped within 3 callbacks, thread ends). Start positions in the middle, exactly at and past the end of the data, empty streams, and seek_to / seek_by to or past the end while the decoder thread is alive (no loop): the sound ends, the thread ends."),
+              "A case is distinct and counted when its fault was actually reached (the decoder counted the failing call) or it is a fault-free life-cycle case with a new (scene, pace, loop) combination. Streams longer than the 16384-frame ring; errors arriving while the sound itself is paused or waits for a clock; a decoder thread that neither ends nor polls while a reference thread completes 1500 sleeps of 1 ms is a violation. stop() written after pause()/resume()/resume_at() in the same interval must still stop the sound (Stopped within 3 callbacks, thread ends). Start positions in the middle, exactly at and past the end of the data, empty streams, and seek_to / seek_by to or past the end while the decoder thread is alive (no loop): the sound ends, the thread ends. File-backed cases with the library's own decoder: a WAV truncated at a random byte must still lead to Stopped and to the decoder thread releasing the file (Drop of the byte source); a paused sound resumed at a clock time whose clock is then removed becomes Stopped for the handle too and its thread ends."),
         exhaustive_quick=True,
         exhaustive_thorough=True,
         domain="streams of 1..3000 frames (40000 for confirmations), packets 1..4096; excluded while listed as known findings: scene 'track dropped' (thread-end verdict) and multi-frame resume skips of starving paces (counted instead)",
@@ -193,7 +193,7 @@ META = {
         rule=("(a) Trees of 1-6 tracks (nested, persist_until_sounds_finish on/off) with 0-2 looping or finite DC sounds per track; histories of instant pause/resume and resume_at(delayed 2-9 chunks) on any node, handle drops of any node, sound stops, callbacks of 1-3 chunks. After every callback: the set of audible sounds (decoded from the summed DC level) equals the model "
               "(a paused track silences its whole subtree exactly; a dropped track is silent at the next callback unless it persists until its sounds have finished and been unloaded, or a descendant track is still alive); positions of sounds under a steadily paused track are constant and advance by exactly the callback's frames otherwise (continue exactly where they froze); "
               "num_sub_tracks of the manager and of every live handle equal the model; state() equals Playing/Paused. Fades requested while an ancestor is paused are deferred (they do not advance in a frozen subtree). "
-              "(b) a sound with a start delay on a (nested) track paused for P chunks with a fade becomes audible P chunks later (+- the fade and one chunk). (c) random pause/resume/resume_at(delayed | clock | clock later dropped) histories with fades: state() never panics and is one of the five states. A case is distinct per (kind, index). Also pause on a track that is waiting to resume (the scheduled resume is cancelled) and pauses whose fade has a delayed start (the track plays on until then). 40 % of the delay / fade cases run on a device whose internal buffer is three callbacks long (short chunks): track fades and start delays are counted in rendered frames."),
+              "(b) a sound with a start delay on a (nested) track paused for P chunks with a fade becomes audible P chunks later (+- the fade and one chunk). (c) random pause/resume/resume_at(delayed | clock | clock later dropped) histories with fades: state() never panics and is one of the five states. A case is distinct per (kind, index). Also pause on a track that is waiting to resume (the scheduled resume is cancelled) and pauses whose fade has a delayed start (the track plays on until then). 40 % of the delay / fade cases run on a device whose internal buffer is three callbacks long (short chunks): track fades and start delays are counted in rendered frames. Resume variants on plain and spatial tracks: resume() with a fade-in whose start is delayed (Resuming at once, sounds advance), and resume_at on a clock that is not running (frozen and silent until it is started)."),
         domain="instant fades in (a); fades 0..3 chunks in (b),(c); excluded while listed as known finding: dropping the clock a resume_at waits on (state() then panics)",
         assumptions=["a Stopped sound is unloaded at the next callback and the persisting track is examined before that, so it is removed one callback later", "DC levels 2^-(b+2) sum exactly in f32"],
         quick=[rel(30)],
@@ -208,7 +208,7 @@ META = {
         rule=("Random effect specifications over all 8 built-in effects (delay with 0-2 nested feedback effects), parameters drawn from documented ranges plus their edges (mix -0.5/0/1/1.5, resonance 0/1, cutoff 0/1 Hz/Nyquist/2xNyquist, Q 0/0.01/20, gain +-24 dB, -60/-80 dB, zero attack/release), "
               "8 sample rates 8k..192k, internal buffer sizes 1..1024, 8 signal classes (noise, impulses, step, DC, full-scale square, denormals, sine, burst then silence), random partitions into process calls. Each case checks one law on fresh instances built through the public EffectBuilder::build: "
               "dry identity (bit-exact), silence->silence (exact zeros), finite output, superposition+scaling for linear effects (tolerance = the instance's measured f32 rounding-noise floor; E(-2x) == -2E(x) exactly), partition independence (<= 1e-6). "
-              "A case is distinct and non-trivial when (effect kind, law, sample rate, signal class, coarse parameter cell) is new and the input is non-zero (except the silence law). One partition case in four runs on an instance that first lived at another device rate (init at R0, warm-up, on_change_sample_rate(R))."),
+              "A case is distinct and non-trivial when (effect kind, law, sample rate, signal class, coarse parameter cell) is new and the input is non-zero (except the silence law). One partition case in four runs on an instance that first lived at another device rate (init at R0, warm-up, on_change_sample_rate(R)). Dry identity also through the handle: a filter set fully dry / a volume control set to 0 dB instantly, then a further instant move written one callback later with its start delayed by 4-9 buffers: bit-exact identity while that is pending."),
         domain="D0 U B of DESIGN.md 2.3; not generated because they diverge by construction: feedback-loop gain > 0 dB (delay feedback x nested effect gain bound), expander ratios < 0.25, expanders inside feedback loops",
         assumptions=["effects are driven as the mixer drives them: init(sr, ibs) once, then on_start_processing + process on slices <= ibs with MockInfoBuilder info",
                      "superposition tolerance is calibrated per instance from E(s*x)/s - E(x) (s = 1+2^-7+2^-13) with a 64x margin; gross non-homogeneity (> 5 %) is itself reported"],
@@ -224,7 +224,7 @@ META = {
         rule=("Random parameter cells x 8 sample rates. Filter: 3 sine probes vs analytic |H| of the bilinear (pre-warped) SVF, plus mapping-free checks at the requested hertz: LP/HP gains cross at the cutoff, notch nulls there, band-pass peaks there, LP DC gain and HP Nyquist gain 0 dB +-0.05. "
               "EQ: bell centre gain / low-shelf DC gain / high-shelf Nyquist gain == requested dB +-0.1 with the opposite band at 0 dB, 3 sine probes vs SvfLinearTrapOptimised2 response. Volume/panning/distortion: point-wise against the dB, equal-power and clip laws (4e-6). "
               "Delay: two impulses -> echoes at exact multiples of floor(delay*sr) frames scaled by (feedback x nested volume)^k and the sqrt mix law (1e-5). Reverb: sample-by-sample against an independent f64 Freeverb network (tunings x sr/44100, spread 23, 8 combs, 4 all-passes) and tail-energy decay for feedback < 1. "
-              "Compressor: below threshold unchanged, steady-state reduction (level-threshold)(1-1/ratio) dB +-0.1, attack/release reach 1-1/e within +-5 %. A case is distinct when its (effect, mode/kind, sample rate, coarse parameter cell) is new. Compressor attack/release shorter than a sample period against the one-pole model; a hard/soft clip in a delay's feedback loop (delay line -> effect -> feedback gain). One compressor case in four at the far end of the ranges: thresholds down to -90 dB with ratios 8..200 (reductions of 60 dB and more) and make-up gains -70..+40 dB; test levels are plain 10^(dB/20). A low-pass filter in the delay's feedback loop, input cut into slices of 1..ibs frames: compared frame by frame (2e-4) with a model line whose reads pass, once and in order, through a second instance of the same filter."),
+              "Compressor: below threshold unchanged, steady-state reduction (level-threshold)(1-1/ratio) dB +-0.1, attack/release reach 1-1/e within +-5 %. A case is distinct when its (effect, mode/kind, sample rate, coarse parameter cell) is new. Compressor attack/release shorter than a sample period against the one-pole model; a hard/soft clip in a delay's feedback loop (delay line -> effect -> feedback gain). One compressor case in four at the far end of the ranges: thresholds down to -90 dB with ratios 8..200 (reductions of 60 dB and more) and make-up gains -70..+40 dB; test levels are plain 10^(dB/20). A low-pass filter in the delay's feedback loop, input cut into slices of 1..ibs frames: compared frame by frame (2e-4) with a model line whose reads pass, once and in order, through a second instance of the same filter. The compressor's attack time linked to a (mock) modulator through a mapping from a long to a short duration or back: the measured 63 % time equals the interpolated duration (+-6 %)."),
         domain="cutoffs 40 Hz..0.45 sr, resonance 0..0.85, Q 0.3..8, gains +-24 dB, delays 1..3000 frames, feedback <= 0 dB, reverb feedback <= 0.98, compressor ratio 1..50, attack 2..100 ms, release 5..300 ms; measurement domains are narrower than C13's so that settling fits the run length",
         assumptions=["reference models were written from the cited sources (Simper/Cytomic SVF papers, Freeverb) and from kira's documentation, not from kira's code paths; the resonance->k mapping (k = 2 - 1.9 res) is taken from the cited baseplug example",
                      "sine gains are measured by quadrature over a whole number of periods after 12 time constants of settling"],
@@ -258,7 +258,7 @@ META = {
               "(A') for each of the 7 add-track paths, all interleavings (depth-first over the controlled scheduler, yield points game.add, hook track.add.loaded, audio.change, audio.cb) of one add call with 1 or 2 {rate change, callback} pairs on the renderer thread; same invariant. "
               "(B) random cells (rate R1 in 8 rates 8k..192k, optional change to R2 at a callback boundary 2..30 ms in, internal buffer 16..128, random callback sizes): a tone keeps its duration (+-5 sound frames + 4 device frames) and mean-crossing count (+-3); a sound scheduled at clock tick k starts at k/tps s (+- one internal chunk); a linear -40 dB volume tween of D s passes -20 dB at D/2 and ends at D (+- one chunk); "
               "a wet delay of T s on main/top/nested (plain, with-effect or 2 levels deep group parents)/send/spatial/nested-spatial tracks, for the orders add-callback-change, add-change-callback and change-add-callback, repeats a 2 ms burst at k*floor(T*R)/R s (+-3 frames, k <= 4); low/high/band-pass gain at the cutoff agrees (0.25 dB) between early/late windows, before/after a change and another device rate. "
-              "A case is distinct when its (history length, op set) / (race path, event order) / (measurement kind, R1, R2) is new. A probe effect inside a delay's feedback loop is part of the history alphabet; the reverb's first reflections arrive after 1116/44100 s (left) and 1139/44100 s (right) at every rate. The delay holding the probe has a line of 5 ms, 40 ms, 0 or 10 us (the same number of frames at both rates) and the probe may sit one delay deeper. The alphabet includes dropping the handle of a track that has children (it lives on and must learn later rate changes); a compressor that has already run reaches 63 % of its final reduction one attack time (8-40 ms, +-7 %) after a loud signal begins, at the rate then in force."),
+              "A case is distinct when its (history length, op set) / (race path, event order) / (measurement kind, R1, R2) is new. A probe effect inside a delay's feedback loop is part of the history alphabet; the reverb's first reflections arrive after 1116/44100 s (left) and 1139/44100 s (right) at every rate. The delay holding the probe has a line of 5 ms, 40 ms, 0 or 10 us (the same number of frames at both rates) and the probe may sit one delay deeper. The alphabet includes dropping the handle of a track that has children (it lives on and must learn later rate changes); a compressor that has already run reaches 63 % of its final reduction one attack time (8-40 ms, +-7 %) after a loud signal begins, at the rate then in force. Filter cutoffs from 70 Hz; an EQ band (high/low shelf, bell; +-12, 6 dB) at 500..3000 Hz (up to 0.3 of the lowest rate) measures half its gain (shelves) / its gain (bell) at its frequency, +-0.35 dB, before and after a change."),
         domain="rates 8000..192000 (8 values); tone frequencies <= min(sound rate, device rate)/10; delays 4..30 ms; filter cutoffs 200..1500 Hz, resonance <= 0.6; the rate change is applied between callbacks by the thread that owns the renderer (as the cpal backend does)",
         assumptions=["the rate-in-force invariant is judged on a harness Effect implementation; built-in effects are covered by the delay/filter measurements",
                      "reverb and compressor time constants are not measured here (C14 measures them per rate)"],
@@ -276,7 +276,7 @@ META = {
               "histories of 4-14 callbacks of random sizes (sr 1000/8000/44100, internal buffer 1/4/16/50/128) with handle commands between callbacks: tweener set, LFO set_frequency/amplitude/offset (fixed or linked targets, tweens incl. zero duration), set_waveform, set_phase, drops of any modulator, late additions. "
               "Every chunk: each linked parameter must lie in the image of the model's value (an exact point, or an interval while an LFO's frequency is changing) of the SAME chunk (1e-9 relative; 2e-5 for the audible gain at the chunk's last frame); parameters of removed modulators hold bit-exactly; the effect must see the master modulator already updated for this chunk; "
               "every probe modulator is updated exactly once per chunk with dt = frames/sample rate. Constant-parameter LFOs are additionally compared with the analytic waveform at phase0/2pi + f t and with offset +- |amplitude|. "
-              "Reads whose value the model cannot know (downstream of an interval) are counted separately, not judged. A dedicated case re-links an LFO to a later-created tweener (known finding). A case is distinct when (modulator count, event kinds, sound present, buffer size) is new. A clock whose speed is mapped from a moving modulator advances by the same chunk's value; LFOs faster than the chunk rate and starting phases of several turns. A tweener transition scheduled with a delay, a clock time or an idle clock and called off, before it begins, by set(<exactly the held value>): the tweener stays there in every later chunk."),
+              "Reads whose value the model cannot know (downstream of an interval) are counted separately, not judged. A dedicated case re-links an LFO to a later-created tweener (known finding). A case is distinct when (modulator count, event kinds, sound present, buffer size) is new. A clock whose speed is mapped from a moving modulator advances by the same chunk's value; LFOs faster than the chunk rate and starting phases of several turns. A tweener transition scheduled with a delay, a clock time or an idle clock and called off, before it begins, by set(<exactly the held value>): the tweener stays there in every later chunk. The clock-speed link uses ranges in ticks per second, ticks per minute, seconds per tick and mixed units (interpolation happens in the unit of the range's second end)."),
         domain="frequencies 0..0.35/chunk duration (so adjacent chunks differ), amplitudes/offsets in [-2,2], mapping ranges within [-10,10], tweens 0..6 chunks, immediate start; links only to earlier-created modulators except in the dedicated forward-link case",
         assumptions=["while an LFO's frequency is being tweened any integration rule between the chunk's two end frequencies is accepted", "tween start times other than Immediate are C06's subject"],
         quick=[rel(25)],
@@ -291,7 +291,7 @@ META = {
         rule=("(F) WAV files from the harness encoder (u8/i16/i24/i32/f32/f64, 1/2/3/6 channels, 9 rates incl. 1 and 12345 Hz, lengths 0/1/odd/1151..1154/up to 20000, plain or WAVE_FORMAT_EXTENSIBLE headers, fact/unknown/LIST chunks around the data, odd chunk sizes): from_cursor must give the encoded rate, frame count and every sample (exact for f32, f32-rounded for f64, <= 1 LSB for integers), mono in both channels, UnsupportedChannelConfiguration for > 2 channels; StreamingSoundData::num_frames must agree. "
               "(S) index-coded WAVs (3000..71500 frames, every frame unique and non-zero) streamed at rate 1 with slices, start positions, loop regions and up to 3 seek_to commands (incl. targets next to the decoder's current packet): the output must follow the loaded frames as described, every seek issued while the decoder thread lives must land on the frame a static sound lands on, the sound must end after the last frame of the file/slice and report no error; the shipped assets (ogg, wav) likewise, from 0 strictly. "
               "(X) truncation at a random byte, one flipped bit in the header region, or one byte set to 00/7F/80/FF anywhere, on files of 0..600 frames: from_cursor must return an error value or frames that are a prefix (same rate) of what the independent reader derives from the same bytes when the header is still self-consistent (otherwise counted as not judged); streaming the same bytes must be refused or end, playing only frames that loading gives; no panic on any thread, <= 5 s CPU. "
-              "A case is distinct when its (kind, format, channels, header variant, length class / slice, loop, seeks, start / asset) key is new. Seek targets include rewinds to 0, packet-aligned frames, the same target twice and relative seek_by (relative to the reported position, +-2 frames); in 30 % of the loop-free cases every seek_to is written together with a seek_by (before or after it, while the decoder thread is parked): the seek_to target is the one landing."),
+              "A case is distinct when its (kind, format, channels, header variant, length class / slice, loop, seeks, start / asset) key is new. Seek targets include rewinds to 0, packet-aligned frames, the same target twice and relative seek_by (relative to the reported position, +-2 frames); in 30 % of the loop-free cases every seek_to is written together with a seek_by (before or after it, while the decoder thread is parked): the seek_to target is the one landing. A third of the start positions are given in seconds (a quarter frame past the frame); before the first callback the handle must already report the start position; a decoder thread that passes no hook point while a reference thread completes 3000 sleeps of 1 ms on a corrupted file is a hang (violation), slower progress is inconclusive."),
         domain="PCM and IEEE-float WAV only for fidelity (no independent Vorbis/FLAC/MP3 decoder exists offline: compressed assets get the equality half only); seek targets at (k+0.25)/rate, inside the loop region when one is set, at least one callback apart; device rate = file rate, playback rate 1",
         assumptions=["the decoder is kept ahead of playback (the harness waits for two dec.wait hook hits, an end or an error before every callback); starvation is C10's subject",
                      "integer sample scaling conventions: (s-128)/128, s/2^15, s/2^23, s/2^31"],
@@ -308,7 +308,7 @@ META = {
               "quick: every 61st plus +-2048 neighbours of each boundary); semitones, clock speeds, ClockTime (+,- with u64/f64, "
               "ordering, constructors), easings (via Mapping::map, 0->0, 1->1, monotone on a grid) and Mapping clamping are sampled "
               "with boundary-biased generators. A case is distinct and non-trivial when its (function, sign/exponent class of the "
-              "input, operation, boundary class) key is new and the input is not NaN. Compound operators (+=, -=) on ClockTime must agree with the binary ones."),
+              "input, operation, boundary class) key is new and the input is not NaN. Compound operators (+=, -=) on ClockTime must agree with the binary ones. Mappings over every output type with its own Tweenable impl (Duration, f32, Panning, PlaybackRate, Mix, Semitones; ascending and descending): the ends and the middle of the input range map to the ends and the middle of the output range, without panicking."),
         exhaustive_thorough=True,
         exhaustive_quick=False,
         domain="all f32 bit patterns for decibels/panning (NaN inputs counted, not judged); ticks <= 2^53, fractions within 1 ulp of 0 and 1; easing powers powi 1..8, powf 0.1..8; mapping ranges with input_range.0 != input_range.1",
